@@ -150,6 +150,9 @@ pub fn cases(deep: bool) -> Vec<(Case, Vec<&'static [&'static str]>)> {
         "definition: forall X (d(X) <-> p(X) and not q(X)). lemma: forall X (d(X) -> p(X)).", "lemma: forall X (p(X) -> q(X)).", "lemma: forall X (q(X) -> p(X)). lemma: exists X (p(X)).",
         "inductive-lemma: forall N$i (N$i >= 0 -> (q(N$i) -> p(N$i))).", "inductive-lemma: forall N$i (N$i >= 0 -> p(N$i)).", "inductive-lemma: forall N$i (N$i >= 1 -> (q(N$i) -> p(N$i))). lemma: forall X (q(X) and X = 1 -> p(X)).",
         "inductive-lemma: forall N$i (N$i >= 0 -> not q(N$i)).",
+        // the induction variable is bound again inside the formula
+        "inductive-lemma: forall N$i (N$i >= 0 -> ((p(N$i) -> q(N$i)) and forall N$i (q(N$i) -> p(N$i)))).", "inductive-lemma: forall N$i (N$i >= 0 -> ((q(N$i) -> p(N$i)) or exists N$i (q(N$i) and not p(N$i)))). lemma: forall X (q(X) -> p(X)).",
+        "inductive-lemma: forall N$i (N$i >= 1 -> forall N$i (p(N$i) -> q(N$i)) and (q(N$i) -> p(N$i) or N$i > 0)). lemma: forall X (p(X) <-> q(X)).",
         // a lemma after an inductive lemma that holds: the later lemma must still be proved on its own
         "inductive-lemma: forall N$i (N$i >= 0 -> (p(N$i) -> q(N$i))). lemma: forall X (q(X) -> p(X)).", "inductive-lemma: forall N$i (N$i >= 0 -> (p(N$i) -> q(N$i))). lemma: #false.",
         "lemma: forall X (p(X) -> q(X)). inductive-lemma: forall N$i (N$i >= 0 -> (p(N$i) -> q(N$i))). inductive-lemma: forall N$i (N$i >= 0 -> (p(N$i) -> p(N$i))). lemma(forward): forall X (q(X) -> p(X)). lemma(backward): exists X (p(X) and not q(X)).", "inductive-lemma(forward): forall N$i (N$i >= 0 -> (p(N$i) -> q(N$i))). lemma(backward): forall X (p(X) -> q(X)).", "definition: forall X (d(X) <-> q(X) and not p(X)). definition: forall X (e(X) <-> d(X) or p(X)). lemma: forall X (e(X) -> q(X)).",
@@ -281,9 +284,12 @@ pub fn check_case(c: &Case, flag_sets: &[&[&str]], st: &mut VStats, fails: &mut 
         for pv in &assignments {
         // the TPTP name of a placeholder carries its sort; the oracle sees the placeholder under its own name
         let mut consts: HashMap<String, Val> = HashMap::new();
+        let mut consts_problem: HashMap<String, Val> = HashMap::new();
         let mut by_name: HashMap<String, Val> = HashMap::new();
         for ((n, sort), v) in placeholders.iter().zip(pv) {
-            consts.insert(format!("{n}_{}", match sort { fol::Sort::Integer => "i", fol::Sort::Symbol => "s", fol::Sort::General => "g" }), v.clone());
+            // problem side: the TPTP name; source side (user guide, specification): the symbolic constant of that name ("@name").
+            // The two are kept apart: a plain symbol `n` in an emitted problem denotes itself, not the placeholder
+            consts_problem.insert(format!("{n}_{}", match sort { fol::Sort::Integer => "i", fol::Sort::Symbol => "s", fol::Sort::General => "g" }), v.clone());
             consts.insert(format!("@{n}"), v.clone());
             by_name.insert(n.clone(), v.clone());
         }
@@ -291,12 +297,13 @@ pub fn check_case(c: &Case, flag_sets: &[&[&str]], st: &mut VStats, fails: &mut 
         let pv_text = if placeholders.is_empty() { String::new() } else { format!(" with placeholders {:?}", placeholders.iter().map(|p| p.0.clone()).zip(pv.iter().map(|v| v.to_string())).collect::<Vec<_>>()) };
         st.evaluations += interps.len();
         let cl = |i: &Atoms| Ht { here: i.clone(), there: i.clone(), consts: consts.clone() };
-        let ref_fw: Vec<bool> = interps.iter().map(|i| { let m = cl(i); fw.iter().any(|p| refutes(p, &dom, &m)) }).collect();
-        let ref_bw: Vec<bool> = interps.iter().map(|i| { let m = cl(i); bw.iter().any(|p| refutes(p, &dom, &m)) }).collect();
+        let clp = |i: &Atoms| Ht { here: i.clone(), there: i.clone(), consts: consts_problem.clone() };
+        let ref_fw: Vec<bool> = interps.iter().map(|i| { let m = clp(i); fw.iter().any(|p| refutes(p, &dom, &m)) }).collect();
+        let ref_bw: Vec<bool> = interps.iter().map(|i| { let m = clp(i); bw.iter().any(|p| refutes(p, &dom, &m)) }).collect();
         // refuting the problem of a lemma only shows that the lemma is false: soundness (a) is about the final problems
         let is_final = |p: &&&ReadProblem| !p.file.contains("outline");
-        let fin_fw: Vec<bool> = interps.iter().map(|i| { let m = cl(i); fw.iter().filter(is_final).any(|p| refutes(p, &dom, &m)) }).collect();
-        let fin_bw: Vec<bool> = interps.iter().map(|i| { let m = cl(i); bw.iter().filter(is_final).any(|p| refutes(p, &dom, &m)) }).collect();
+        let fin_fw: Vec<bool> = interps.iter().map(|i| { let m = clp(i); fw.iter().filter(is_final).any(|p| refutes(p, &dom, &m)) }).collect();
+        let fin_bw: Vec<bool> = interps.iter().map(|i| { let m = clp(i); bw.iter().filter(is_final).any(|p| refutes(p, &dom, &m)) }).collect();
         flag_fw.extend(ref_fw.iter().cloned());
         flag_bw.extend(ref_bw.iter().cloned());
 
